@@ -345,7 +345,36 @@ fn one_salted(ctx: &Ctx, rep: &mut Report, id: usize, c: usize, profile: &str, s
             w.window("drop RangeWitness (spare capacity)", move || drop(ws));
         }
         let mask = ExtendedMask::assign(ext_of(ext), case.blindings[0].clone()).unwrap();
+        // comparing masks (the `assert_eq!(masks, recovered)` idiom) must not leave copies behind either
+        {
+            let same = ExtendedMask::assign(ext_of(ext), case.blindings[0].clone()).unwrap();
+            let mut other_bl = case.blindings[0].clone();
+            other_bl[ext - 1] += Scalar::ONE;
+            let other = ExtendedMask::assign(ext_of(ext), other_bl).unwrap();
+            let pair = vec![Some(ExtendedMask::assign(ext_of(ext), case.blindings[0].clone()).unwrap()), None];
+            let pair2 = vec![Some(ExtendedMask::assign(ext_of(ext), case.blindings[0].clone()).unwrap()), None];
+            let verdicts = w.window("compare ExtendedMask values", || (mask == same, mask != other, pair == pair2));
+            if verdicts != (true, true, true) {
+                w.rep.note("C20: ExtendedMask equality gives an unexpected verdict".into());
+            }
+            w.window("drop compared ExtendedMasks", move || drop((same, other, pair, pair2)));
+        }
         w.window("drop ExtendedMask", move || drop(mask));
+        // overwriting a secret-owning object with clone_from(): the storage the old value lived in is released (or
+        // reused) without leaving the old secrets behind, also when the source is larger than the target
+        {
+            let mut small = CommitmentOpening::new(values[0], case.blindings[0][..1].to_vec());
+            let big = CommitmentOpening::new(values[m - 1], vec![case.blindings[m - 1][0]; 6]);
+            w.window("CommitmentOpening::clone_from a larger opening", || small.clone_from(&big));
+            w.window("drop CommitmentOpening after clone_from", move || drop((small, big)));
+            let mut w1 = RangeWitness::init(vec![CommitmentOpening::new(values[0], case.blindings[0].clone())]).unwrap();
+            let src = RangeWitness::init((0..m.max(2)).map(|j| CommitmentOpening::new(values[j % m], case.blindings[j % m].clone())).collect::<Vec<_>>()).unwrap();
+            w.window("RangeWitness::clone_from a larger witness", || w1.clone_from(&src));
+            let mut w2 = src.clone();
+            let one = RangeWitness::init(vec![CommitmentOpening::new(values[0], case.blindings[0].clone())]).unwrap();
+            w.window("RangeWitness::clone_from a smaller witness", || w2.clone_from(&one));
+            w.window("drop RangeWitness after clone_from", move || drop((w1, src, w2, one)));
+        }
         // a constructor that refuses its input drops the caller-supplied vector: no owning object ever existed, so
         // this is outside the situations the property names - diagnostic only
         let bl = case.blindings[0].clone();
